@@ -267,6 +267,20 @@ func runC07(w *W) {
 		run(body, "corpus:"+s.Test+"#"+itoa(s.Index))
 	}
 
+	// (1b) deep but narrow queries: embedded, their indentation crosses 128 / 256 / 512 / 1024 columns
+	for _, depth := range []int{16, 30, 36, 40, 70, 75, 140, 150} {
+		q := "SELECT 1"
+		for i := 0; i < depth; i++ {
+			q = "SELECT * FROM (" + q + ")"
+		}
+		run(q, fmt.Sprintf("deep-from:%d", depth))
+		e := "x"
+		for i := 0; i < depth*3; i++ {
+			e = "f(" + e + ")"
+		}
+		run("SELECT "+e+" FROM t", fmt.Sprintf("deep-call:%d", depth*3))
+	}
+
 	// (2) the hand-written rarely combined forms (WITH inheritance, DISTINCT ON, LIMIT BY, set operations …)
 	for i, q := range specialSelects() {
 		run(q, "special:"+itoa(i))
